@@ -132,7 +132,7 @@ def HOOK(k, o, key="", arg=None, st=""):
     dec = Rec.policy.decide(k, o, key)
     vals, inj = snapshot()
     ev = {"e": "cb", "k": k, "o": o, "key": key, "raise": bool(dec["raise"]), "w": dec["w"],
-          "adv": dec["adv"], "ret": dec["ret"], "eng": list(dec.get("eng", [])), "st": st, "dsw": dec.get("dsw", ""),
+          "adv": dec["adv"], "ret": dec["ret"], "eng": list(dec.get("eng", [])), "st": st, "dsw": dec.get("dsw", ""), "endc": bool(dec.get("endc")),
           "t": wpilib.RobotController.getFPGATime() - Rec.t0,
           "m": Rec.inst.getEntry("/robot/mode").getString(""),
           "vals": vals, "inj": inj,
@@ -152,6 +152,10 @@ def HOOK(k, o, key="", arg=None, st=""):
         hs.setDriverStationAutonomous(m == "auto" or (m == "disabled" and len(Rec.log) % 2 == 0))
         hs.setDriverStationTest(m == "test")
         hs.notifyDriverStationNewData()
+    if dec.get("endc"):
+        # endCompetition() from inside a callback (what a "shut down" button handler or a supervising thread does)
+        Rec.ended_by_cb = True
+        Rec.robot.endCompetition()
     if dec["raise"]:
         # the class of the exception must not matter (AttributeError looks like "hook not defined" to a careless getattr)
         kinds = (RuntimeError, AttributeError, KeyError, ValueError, ZeroDivisionError, AssertionError, LookupError,
@@ -516,6 +520,10 @@ class RandomPolicy:
             m = rng.choice([x for x in ("disabled", "auto", "teleop", "test") if x != self.cur])
             self.cur = m
             d["dsw"] = m
+        if k in ("on_enable", "teleopPeriodic", "execute", "auto.on_iteration", "robotPeriodic", "disabledPeriodic") \
+                and not self.ended and rng.random() < 0.004:
+            d["endc"] = True
+            self.ended = True
         return d
 
     def env_events(self):
@@ -588,7 +596,7 @@ class ScriptPolicy:
             if e["e"] == "cb" and e["k"] == k and e["o"] == o and e.get("key", "") == key:
                 self.i += 1
                 return {"raise": e["raise"], "w": list(e["w"]), "adv": e["adv"], "ret": e["ret"],
-                        "eng": list(e.get("eng", [])), "dsw": e.get("dsw", "")}
+                        "eng": list(e.get("eng", [])), "dsw": e.get("dsw", ""), "endc": bool(e.get("endc"))}
             self.desync += 1      # the script has a different event here
             self.where.append({"i": self.i, "script": {x: e[x] for x in e if x in ("e", "k", "o", "key")},
                                "actual": [k, o, key]})
@@ -745,6 +753,7 @@ def run_history(tid, layout, fms, policy_factory, scratch):
     DS.notifyNewData()
     wpilib.DriverStation.refreshData()
     pol = Rec.policy = policy_factory(layout, fms)
+    Rec.ended_by_cb = False
     R = make_robot(layout, tid)
     exc = []
     r = Rec.robot = R()
@@ -775,14 +784,21 @@ def run_history(tid, layout, fms, policy_factory, scratch):
         Rec.log[-1]["fb"] = fb
         Rec.log[-1]["fbt"] = fbt
         Rec.log[-1]["t"] = wpilib.RobotController.getFPGATime() - Rec.t0
-        evs = [None] if ended else pol.env_events()
+        ended = ended or Rec.ended_by_cb
+        if ended and isinstance(pol, ScriptPolicy):
+            evs = [e for e in pol.env_events() if e is not None]      # a script may go on after endCompetition()
+        else:
+            evs = [None] if ended else pol.env_events()
         if evs is None:
             evs = [None]
         for e in evs:
             if e is None:
                 if not ended:
                     Rec.log.append({"e": "end"})
-                    r.endCompetition()
+                    try:
+                        r.endCompetition()
+                    except Exception:  # noqa - endCompetition() calls no user code; if it does, the callbacks are in the log
+                        pass
                     ended = True
             else:
                 Rec.log.append(dict(e))
